@@ -293,47 +293,48 @@ theorem getD_default_of_le {α : Type} (l : List α) (i : Nat) (d : α) (h : l.l
 
 /-! ## (b) the reusable encoder -/
 
-theorem runOps_append (S : Schema) (b : Backend) :
+theorem runOpsWith_append (clr : Encoder → Encoder × Bool) (S : Schema) :
     ∀ (h1 h2 : List Op) (st : Encoder),
-      runOps S b st (h1 ++ h2) =
-        ((runOps S b (runOps S b st h1).1 h2).1,
-         (runOps S b st h1).2 ++ (runOps S b (runOps S b st h1).1 h2).2) := by
+      runOpsWith clr S st (h1 ++ h2) =
+        ((runOpsWith clr S (runOpsWith clr S st h1).1 h2).1,
+         (runOpsWith clr S st h1).2 ++ (runOpsWith clr S (runOpsWith clr S st h1).1 h2).2) := by
   intro h1
   induction h1 with
   | nil => intro h2 st; rfl
   | cons op ops ih =>
     intro h2 st
-    simp only [List.cons_append, runOps, ih, List.cons_append]
+    simp only [List.cons_append, runOpsWith, ih, List.cons_append]
 
-theorem clearOp_nonxml {b : Backend} (hb : b ≠ .xml) (st : Encoder) : clearOp b st = (fresh, true) := by
-  cases b <;> first | rfl | exact absurd rfl hb
+/-- the general form of `encoder_reuse`, for any implementation of `Clear`: once `Clear` has returned normally
+    with a fresh writer, the rest of the history runs exactly as on a new encoder, whatever came before. -/
+theorem reuse_gen (clr : Encoder → Encoder × Bool) (S : Schema) (st0 : Encoder) (h ops : List Op)
+    (hclr : clr (runOpsWith clr S st0 h).1 = (fresh, true)) :
+    runOpsWith clr S st0 (h ++ .clear :: ops) =
+      ((runOpsWith clr S fresh ops).1,
+       (runOpsWith clr S st0 h).2 ++ true :: (runOpsWith clr S fresh ops).2) := by
+  rw [runOpsWith_append]
+  simp only [runOpsWith, stepOpWith, hclr]
 
-/-- xmlWriter.Clear succeeds (and yields a fresh writer) unless elements were left open by an aborted call
-    on an encoder that has not been closed yet. -/
-theorem clearOp_xml {st : Encoder} (h : st.closed = true ∨ st.opened = 0) :
-    clearOp .xml st = (fresh, true) := by
-  unfold clearOp
+/-- every back end of the library (since 55f108f): `Clear` always yields the state of a new encoder. -/
+theorem clearOp_fresh (b : Backend) (st : Encoder) : clearOp b st = (fresh, true) := rfl
+
+/-- OLD xmlWriter.Clear succeeded (and yielded a fresh writer) unless elements were left open by an aborted
+    call on an encoder that had not been closed yet. -/
+theorem oldXmlClearOp_ok {st : Encoder} (h : st.closed = true ∨ st.opened = 0) :
+    oldXmlClearOp st = (fresh, true) := by
+  unfold oldXmlClearOp
   rcases h with h | h
   · simp [h]
   · simp [h]
 
-/-- after ANY `Clear` (even the one that panics) the version cell is empty. -/
-theorem clearOp_cell (b : Backend) (st : Encoder) : (clearOp b st).1.cell = none := by
-  cases b <;> try rfl
-  unfold clearOp
-  dsimp only
+/-- after ANY `Clear` (even the old XML one that panicked) the version cell is empty. -/
+theorem clearOp_cell (b : Backend) (st : Encoder) : (clearOp b st).1.cell = none := rfl
+
+theorem oldXmlClearOp_cell (st : Encoder) : (oldXmlClearOp st).1.cell = none := by
+  unfold oldXmlClearOp
   split
   · rfl
   · split <;> rfl
-
-/-- the general form of `encoder_reuse`: once `Clear` has returned normally with a fresh writer, the rest of
-    the history runs exactly as on a new encoder, whatever came before. -/
-theorem reuse_gen (S : Schema) (b : Backend) (st0 : Encoder) (h ops : List Op)
-    (hclr : clearOp b (runOps S b st0 h).1 = (fresh, true)) :
-    runOps S b st0 (h ++ .clear :: ops) =
-      ((runOps S b fresh ops).1, (runOps S b st0 h).2 ++ true :: (runOps S b fresh ops).2) := by
-  rw [runOps_append]
-  simp only [runOps, stepOp, hclr]
 
 /-- no aborted call of the history left a structure open. -/
 def NoOpenJunk (h : List Op) : Prop :=
@@ -341,37 +342,31 @@ def NoOpenJunk (h : List Op) : Prop :=
     | .encode _ j => j.opened = 0
     | _ => True
 
-theorem stepOp_clean (S : Schema) (b : Backend) (st : Encoder) (op : Op)
+theorem stepOpOld_clean (S : Schema) (st : Encoder) (op : Op)
     (hst : st.opened = 0 ∧ st.closed = false)
     (hop : match op with | .encode _ j => j.opened = 0 | _ => True) :
-    (stepOp S b st op).1.opened = 0 ∧ (stepOp S b st op).1.closed = false := by
+    (stepOpWith oldXmlClearOp S st op).1.opened = 0 ∧ (stepOpWith oldXmlClearOp S st op).1.closed = false := by
   cases op with
   | bytes => exact hst
   | clear =>
-    have : clearOp b st = (fresh, true) := by
-      cases b
-      · rfl
-      · exact clearOp_xml (Or.inr hst.1)
-      · rfl
-      · rfl
-    simp only [stepOp, this]; exact ⟨rfl, rfl⟩
+    simp only [stepOpWith, oldXmlClearOp_ok (Or.inr hst.1)]; exact ⟨rfl, rfl⟩
   | encode m j =>
-    simp only [stepOp, encodeOp, hst.2, Bool.false_eq_true, if_false]
+    simp only [stepOpWith, encodeOp, hst.2, Bool.false_eq_true, if_false]
     split
     · exact ⟨hst.1, rfl⟩
     · have hop' : j.opened = 0 := hop
       exact ⟨by show st.opened + j.opened = 0; rw [hst.1, hop'], rfl⟩
 
-theorem runOps_clean (S : Schema) (b : Backend) :
+theorem runOpsOld_clean (S : Schema) :
     ∀ (h : List Op) (st : Encoder), st.opened = 0 ∧ st.closed = false → NoOpenJunk h →
-      (runOps S b st h).1.opened = 0 ∧ (runOps S b st h).1.closed = false := by
+      (runOpsWith oldXmlClearOp S st h).1.opened = 0 ∧ (runOpsWith oldXmlClearOp S st h).1.closed = false := by
   intro h
   induction h with
   | nil => intro st hst _; exact hst
   | cons op ops ih =>
     intro st hst hj
-    simp only [runOps]
-    exact ih _ (stepOp_clean S b st op hst (hj op List.mem_cons_self))
+    simp only [runOpsWith]
+    exact ih _ (stepOpOld_clean S st op hst (hj op List.mem_cons_self))
       (fun o ho => hj o (List.mem_cons_of_mem _ ho))
 
 /-- the link with `marshal` (Model/Plan.lean): `MarshalTTLV` is `encode` on a fresh encoder, then `Bytes`. -/
@@ -392,7 +387,7 @@ theorem fresh_encode_bytes (S : Schema) (b : Backend) (m : Msg) (j : Junk) (bs :
     (h : marshal S m.d m.tag m.v = .ok bs) :
     (runOps S b fresh [.encode m j]).1.bytes = bs ∧ (runOps S b fresh [.encode m j]).2 = [true] := by
   rw [marshal_eq_encodeFrom] at h
-  simp only [runOps, stepOp, encodeOp, fresh, Bool.false_eq_true, if_false]
+  simp only [runOps, runOpsWith, stepOpWith, encodeOp, fresh, Bool.false_eq_true, if_false]
   cases he : encodeFrom S ⟨m.d, m.tag, m.v⟩ none with
   | ok a =>
     obtain ⟨items, c⟩ := a
